@@ -539,7 +539,9 @@ pub fn partial_evaluate(&mut self, state: &State) -> (r: %s)
     ensures
         r is Ok <==> (old(self).rows.len() == old(self).columns.len() && old(self).rows.len() == old(self).values.len()),
         r is Err ==> *final(self) == *old(self),
-        r is Ok ==> pe_rel(Function { function: Some(FunctionEnum::Quadratic(*old(self))) }, Function { function: Some(FunctionEnum::Quadratic(*final(self))) }, state.entries@, r->Ok_0@),''' % PE_RES,
+        r is Ok ==> pe_rel(Function { function: Some(FunctionEnum::Quadratic(*old(self))) }, Function { function: Some(FunctionEnum::Quadratic(*final(self))) }, state.entries@, r->Ok_0@),
+        // the returned set is EXACTLY the fixed variables that occurred (the shared relation only says "only")
+        r is Ok ==> r->Ok_0@ =~= ids_in(quadratic_ids(*old(self)), state.entries@),''' % PE_RES,
                 rsubs=[(r'let mut used = BTreeSet::new\(\);', 'let mut used: BTreeSet<u64> = BTreeSet::new();', 1),
                        (r'let mut linear = BTreeMap::new\(\);', 'let mut linear: BTreeMap<u64, F64> = BTreeMap::new();', 1),
                        (r'self\.linear\.as_ref\(\)\.map_or\(lit_0p0\(\), \|l\| l\.constant\)', 'opt_linear_constant(&self.linear)', 1),
@@ -632,3 +634,90 @@ pub fn partial_evaluate(&mut self, state: &State) -> (r: %s)
                     let i = choose|i: int| 0 <= i < lst.len() && (#[trigger] lst[i]).0 == __new.terms[j].id; assert(linear@.contains_key(lst[i].0)); }
             }''' % FIN),
                         (('before', r'Ok\(used\)\s*\}\s*$'), final_proof)])
+
+
+# ---------------------------------------------------------------- C03: Polynomial::partial_evaluate (map keyed by id lists: VMap, R28)
+def polynomial_partial_evaluate():
+    FIN = 'poly_fin(old(self).terms@) && state_fin(state.entries@)'
+    T0 = 'old(self).terms@'
+    final_proof = '''let ghost n = old(self).terms.len() as int; let ghost am = racc(its, n, Map::empty()); let ghost mv = monomials@; let ghost used0 = used@;
+        let __t = vmap_into_monomials(monomials);   // R20c
+        proof {
+            let st = state.entries@; let t0 = %s; let pt = pitems(__t@);
+            let fo = Function { function: Some(FunctionEnum::Polynomial(*old(self))) };
+            let fnw = Function { function: Some(FunctionEnum::Polynomial(Polynomial { terms: __t })) };
+            assert(am == ppe_map(*old(self), st));
+            // ids of the result: every key is the list of unfixed ids of some monomial of the input
+            assert forall|k: u64| poly_ids(__t@, __t.len() as int).contains(k) implies polynomial_ids(*old(self)).contains(k) && !st.contains_key(k) by {
+                lemma_poly_ids_mem(__t@, __t.len() as int, k);
+                let i = choose|i: int| 0 <= i < __t.len() && #[trigger] mono_ids(__t@[i].ids@, __t@[i].ids.len() as int).contains(k);
+                assert(mv.contains_key(__t[i].ids@));
+                let j = choose|j: int| 0 <= j < n && free_ids((#[trigger] t0[j]).ids@, t0[j].ids.len() as int, st) == __t[i].ids@;
+                lemma_mono_ids_mem(__t[i].ids@, __t[i].ids.len() as int, k);
+                let q = choose|q: int| 0 <= q < __t[i].ids.len() && __t[i].ids@[q] == k;
+                assert(free_ids(t0[j].ids@, t0[j].ids.len() as int, st).contains(k));
+                lemma_free_ids_mem(t0[j].ids@, t0[j].ids.len() as int, st, k);
+                lemma_mono_ids_mem(t0[j].ids@, t0[j].ids.len() as int, k);
+                lemma_poly_ids_mem(t0, n, k);
+                assert(mono_ids(t0[j].ids@, t0[j].ids.len() as int).contains(k));
+            }
+            if %s {
+                assert(am.dom() =~= mv.dom());
+                assert(klists(pt, __t.len() as int, am)) by {
+                    assert forall|i: int| 0 <= i < __t.len() implies am.contains_key((#[trigger] pt[i]).0) && pt[i].1@ == XR::Fin(am[pt[i].0]) by { assert(mv.contains_key(__t[i].ids@)); }
+                    assert forall|i: int, j: int| 0 <= i < j < __t.len() implies (#[trigger] pt[i]).0 != (#[trigger] pt[j]).0 by { assert(__t[i].ids@ != __t[j].ids@); }
+                }
+                assert forall|i: int| 0 <= i < __t.len() implies fin((#[trigger] __t@[i]).coefficient) by { assert(mv.contains_key(__t[i].ids@)); }
+                assert forall|m: Map<u64, F64>| #![trigger fn_val(fnw, m)] fn_val(fnw, m) == fn_val(fo, m) - poly_pe_rem(*old(self), st, m) by {
+                    lemma_pitems_sum(__t@, __t.len() as int, m); lemma_klist_sum(pt, __t.len() as int, am, pw(m)); }
+            }
+            assert(used0.subset_of(ids_in(polynomial_ids(*old(self)), st)));
+            assert(pe_rel(fo, fnw, st, used0));
+        }
+        ''' % (T0, FIN)
+    return Unit('Polynomial::partial_evaluate', E, 'partial_evaluate', impl=r'impl Evaluate for Polynomial \{',
+                sig='fn partial_evaluate(&mut self, state: &State) -> Result<BTreeSet<u64>>', wrap=('impl Polynomial {', '}'),
+                header='''#[verifier::loop_isolation(false)]
+pub fn partial_evaluate(&mut self, state: &State) -> (r: %s)
+    // never fails.  The monomials of the result list, one per key, the specified merge ppe_map(old, state): each input monomial contributes coefficient * (product of its fixed
+    // values) under the list of its unfixed ids (a monomial with |coefficient| <= EPSILON is skipped), equal lists are accumulated, an entry is dropped when |sum| <= EPSILON;
+    // the remainder poly_pe_rem is DEFINED as the difference between the old value and the value of that merge
+    ensures
+        r is Ok,
+        pe_rel(Function { function: Some(FunctionEnum::Polynomial(*old(self))) }, Function { function: Some(FunctionEnum::Polynomial(*final(self))) }, state.entries@, r->Ok_0@),''' % PE_RES,
+                rsubs=[(r'let mut used = BTreeSet::new\(\);', 'let mut used: BTreeSet<u64> = BTreeSet::new();', 1),
+                       (r'let mut monomials = BTreeMap::new\(\);', 'let mut monomials: VMap = VMap::new();', 1),       # R28
+                       (r'let mut ids = Vec::new\(\);', 'let mut ids: Vec<u64> = Vec::new();', 1),
+                       (r'(?s)self\.terms = monomials\.into_iter\(\)\.map\(\|\(ids, coefficient\)\| Monomial \{ ids, coefficient \}\)\.collect\(\);', 'self.terms = vmap_into_monomials(monomials);', 1)],
+                loops=[dict(kind='for', it='it_1', inv='''invariant
+                *self == *old(self), its == ppe_items(old(self).terms@, state.entries@),
+                forall|k: u64| #[trigger] used@.contains(k) ==> state.entries@.contains_key(k) && poly_ids(old(self).terms@, it_1.index@ as int).contains(k),
+                forall|key: Seq<u64>| #[trigger] monomials@.contains_key(key) ==> exists|j: int| 0 <= j < it_1.index@ && free_ids((#[trigger] old(self).terms@[j]).ids@, old(self).terms@[j].ids.len() as int, state.entries@) == key,
+                %s ==> kmatches(monomials@, racc(its, it_1.index@ as int, Map::empty())),''' % FIN,
+                            body_proof=''' proof { assert(*term == old(self).terms@[it_1.index@ as int]); assert(its[it_1.index@ as int] == ppe_item(*term, state.entries@)); }'''),
+                       dict(kind='for', it='it_2', inv='''invariant
+                    1 <= __i1 <= self.terms.len(), *term == old(self).terms@[it_1.index@ as int], *self == *old(self),
+                    ids@ == free_ids(term.ids@, it_2.index@ as int, state.entries@),
+                    %s ==> value@ == XR::Fin(rv(term.coefficient) * fixed_prod(term.ids@, it_2.index@ as int, state.entries@)),
+                    forall|k: u64| #[trigger] used@.contains(k) ==> state.entries@.contains_key(k) && (poly_ids(old(self).terms@, it_1.index@ as int).contains(k) || mono_ids(term.ids@, it_2.index@ as int).contains(k)),''' % FIN)],
+                proofs=[(('after', r'let mut monomials: VMap = VMap::new\(\);'), '''
+        let ghost its = ppe_items(old(self).terms@, state.entries@);'''),
+                        # a skipped monomial is an item of value 0: the specified merge does not change
+                        (('before', r'continue;'), '''proof { if %s { lemma_racc_zero(its, __i1 as int); } }
+                ''' % FIN),
+                        (('after', r'let mut ids: Vec<u64> = Vec::new\(\);'), '''
+            proof { assert(ids@ =~= free_ids(term.ids@, 0, state.entries@)); if %s { assert(rv(term.coefficient) * 1real == rv(term.coefficient)) by(nonlinear_arith); } }''' % FIN),
+                        (('after', r'value \*= v;'), '''
+                    proof { let c = rv(term.coefficient); let p = fixed_prod(term.ids@, it_2.index@ as int, state.entries@); let x = rv(*v);
+                        assert((c * p) * x == c * (p * x)) by(nonlinear_arith); }'''),
+                        (('after', r'used\.insert\(\*id\);[^{}]*\} else \{\s*[^;{}]*;'), '''
+                    proof { assert(ids@ =~= free_ids(term.ids@, it_2.index@ as int + 1, state.entries@)); }'''),
+                        # after the inner loop: the item of this monomial
+                        (('before', r'let coefficient: &mut F64 ='), '''proof {
+                assert(term.ids@.len() == term.ids.len());
+                assert forall|k: u64| #[trigger] used@.contains(k) implies state.entries@.contains_key(k) && poly_ids(old(self).terms@, it_1.index@ as int + 1).contains(k) by {}
+            }
+            let ghost key0 = ids@; let ghost val0 = value;
+            '''),
+                        (('before', r'self\.terms = __t;'), final_proof)],
+                post_subs=[('self.terms = vmap_into_monomials(monomials);', 'self.terms = __t;')])
